@@ -95,6 +95,12 @@ fn special(v: &str) -> f64 {
         "pi" => PI,
         "-pi" => -PI,
         "2pi" => 2.0 * PI,
+        "max" => f64::MAX,
+        "-max" => -f64::MAX,
+        "hpi+" => f64::from_bits(FRAC_PI_2.to_bits() + 1),
+        "-hpi-" => -f64::from_bits(FRAC_PI_2.to_bits() + 1),
+        "pi+" => f64::from_bits(PI.to_bits() + 1),
+        "91d" => 91f64.to_radians(),
         _ => v.parse::<f64>().unwrap_or(f64::NAN),
     }
 }
